@@ -62,6 +62,11 @@ def library():
         ('sum', D(mod('sum', form('bornmayer', 850.0, 0.35), form('coul', 2.4, -1.2), form('hbnd', 120.0, 35.0))), {'api'}),
         ('product', D(mod('product', form('exponential', 3.0, -2.5), form('morse', 1.8, 2.0, 0.6))), {'api'}),
         ('pow', D(mod('pow', form('buck', 1000.0, 0.3, 0.0), form('constant', 0.5))), {'api'}),
+        ('pow_var', D(mod('pow', form('polynomial', 3.0, 2.0), form('polynomial', 0.2, 0.5))), {'api'}),
+        ('product3', D(mod('product', form('constant', 2.0), form('bornmayer', 850.0, 0.35), form('morse', 1.8, 2.0, 0.6))), {'api'}),
+        ('mod_in_ranges', D(('>', 0.0, mod('sum', form('bornmayer', 850.0, 0.35), form('coul', 2.4, -1.2))),
+                            ('>=', 2.05, mod('product', form('exponential', 3.0, -2.5), form('morse', 1.8, 2.0, 0.6)))), {'api'}),
+        ('pow_of_pow', D(mod('pow', mod('pow', form('polynomial', 3.0, 2.0), form('constant', 2)), form('sqrt', 0.3))), {'api'}),
         ('trans', D(mod('trans', form('lj', 0.2, 2.5), x=0.75)), set()),
         ('nested', D(mod('sum', mod('product', form('constant', 2.0), form('bornmayer', 850.0, 0.35)),
                          mod('trans', form('morse', 1.8, 2.0, 0.6), x=-0.5))), set()),
